@@ -112,6 +112,25 @@ def allWire (c : ImplCase) : Bytes := c.ops.foldl (fun acc o => acc ++ o.wire) [
 
 def wireFrames (bs : Bytes) : List WFrame × Bytes := parseWire (bs.length + 1) bs
 
+/-- an upper bound on the encoded size of the largest single frame this endpoint had to send in the
+case (user messages, pongs for delivered pings, close replies): the properties about back-pressure
+only speak about configurations whose max_write_buffer_size can hold it -/
+def largestFrame (c : ImplCase) : Nat :=
+  let frameLen (n : Nat) : Nat :=
+    n + 2 + (if n < 126 then 0 else if n < 65536 then 2 else 8) + (if c.role == .client then 4 else 0)
+  c.ops.foldl (fun acc o =>
+    let fromOp := match o.body with
+      | "write" :: _ :: h :: _ => frameLen (if h == "-" then 0 else h.length / 2)
+      | "close" :: _ :: h :: _ => frameLen ((if h == "-" then 0 else h.length / 2) + 2)
+      | _ => frameLen 0
+    let fromRes := match o.res with
+      | ["ok", "ping", h] => frameLen (if h == "-" then 0 else h.length / 2)
+      | ["ok", "close", _, h] => frameLen ((if h == "-" then 0 else h.length / 2) + 2)
+      | _ => frameLen 0
+    max acc (max fromOp fromRes)) 6
+
+def bufferHoldsLargest (c : ImplCase) : Bool := c.cfg.maxw ≥ largestFrame c
+
 /-! ### C07: no panic -/
 def monC07 (c : ImplCase) : List String :=
   if c.ops.any (fun o => ioHas o (· == "r:z")) then
@@ -309,7 +328,7 @@ def monC10 (c : ImplCase) : List String :=
       | ["ok", "ping", h] => if o.canW then lastPong := some (unhex h)
       | "ok" :: "close" :: _ => lastPong := none
       | _ => pure ()
-      if isOp o "flush" && o.res == ["ok", "unit"] && c.cfg.maxw ≥ 131 then
+      if isOp o "flush" && o.res == ["ok", "unit"] && bufferHoldsLargest c then
         match lastPong with
         | some p =>
           if !(((wireFrames wire).1.filter fun f => f.opcode == 10).any fun f => f.payload == p) then
@@ -452,7 +471,7 @@ def monC12 (c : ImplCase) : List String :=
 
 /-! ### C13: Close is never lost to back-pressure -/
 def monC13 (c : ImplCase) : List String :=
-  if !c.newOk || hasRawFrame c || c.cfg.maxw < 131 then [] else
+  if !c.newOk || hasRawFrame c || !bufferHoldsLargest c then [] else
   let ops := c.ops.toList
   let res : Option String := Id.run do
     let mut need := false        -- a Close of ours (own or reply) is owed
@@ -542,6 +561,7 @@ def all (c : ImplCase) : List String :=
   monC07 c ++ monMem c ++ monSpecAll c ++ monC03 c ++ m09 ++ m10 ++ monC11 c ++ monC12 c ++ monC13 c ++ monC14 c ++ monC01 c
     ++ alias m10 "C10" "C19" ++ alias m09 "C09" "C19" ++ alias m10 "C10" "C01"
     ++ alias (monC13 c) "C13" "C10" ++ alias ((monC13 c).filter (·.contains "FAIL")) "C13" "C12"
+    ++ alias ((monC13 c).filter (·.contains "FAIL")) "C13" "C04" ++ alias ((monC03 c).filter (·.contains "FAIL")) "C03" "C04"
     ++ alias ((monC07 c).filter fun l => l.startsWith "mon C07 FAIL") "C07" "C05"
     ++ alias ((monC07 c).filter fun l => l.startsWith "mon C07 FAIL") "C07" "C02"
 
